@@ -21,6 +21,15 @@ def tasks(tier):
     return out
 
 
+
+def _det(d_):
+    """Driver seeds its rng with hash(name), which is salted per process: re-seed deterministically from VERIF_SEED and the
+    task name so that a failing case can be replayed by re-running the task."""
+    import random, zlib
+    from vf import common
+    d_.rng = random.Random(common.seed() * 7919 + zlib.crc32(d_.name.encode()))
+    return d_
+
 # ------------------------------------------------------------------------------------------ generators
 def _shape(rng, ndim):
     hi = {1: 14, 2: 7, 3: 5}[ndim]
@@ -275,11 +284,11 @@ def _check_pair(d_, np, mp, I, key, model, data, m_eff, mask_m_eff, info, rng, p
 # ------------------------------------------------------------------------------------------ drivers
 @_silenced
 def drv_ll(tier, ndim, npairs):
-    d_ = Driver('C11', 'll.%dd' % ndim, bound='%d random unfolded model/data pairs, %d-D, axis lengths 2..%d, model in [1e-3,1e3] '
+    d_ = _det(Driver('C11', 'll.%dd' % ndim, bound='%d random unfolded model/data pairs, %d-D, axis lengths 2..%d, model in [1e-3,1e3] '
                 '(and exact 0 only where data is 0), data mix of 0/integers<=400/non-integers in [1e-6,2e4], independent Bernoulli '
                 'masks p in {0,.1,.2,.3,.6,1} on both, corners masked or not, C/F/transposed layouts; oracle mpmath(40 digits) '
                 'Poisson sum over jointly unmasked entries, Fraction theta; tol 1e-13*scale per bin, 2e-13*sum(scale) for sums'
-                % (npairs, ndim, {1: 14, 2: 7, 3: 5}[ndim]))
+                % (npairs, ndim, {1: 14, 2: 7, 3: 5}[ndim])))
     import numpy as np
     import dadi
     from dadi import Inference as I
@@ -310,9 +319,9 @@ def drv_ll(tier, ndim, npairs):
 
 @_silenced
 def drv_fold(tier, npairs):
-    d_ = Driver('C11', 'autofold', bound='%d random pairs, 1-3-D (axis lengths 2..14/7/5, odd and even total sample size), folded data '
+    d_ = _det(Driver('C11', 'autofold', bound='%d random pairs, 1-3-D (axis lengths 2..14/7/5, odd and even total sample size), folded data '
                 '(built directly, not via fold()) against unfolded and already-folded models with independent masks; model folded by '
-                'an explicit idx<->ns-idx loop; same value oracle/tolerances as ll.*' % npairs)
+                'an explicit idx<->ns-idx loop; same value oracle/tolerances as ll.*' % npairs))
     import numpy as np
     import dadi
     from dadi import Inference as I
@@ -356,10 +365,10 @@ def drv_fold(tier, npairs):
 
 @_silenced
 def drv_best(tier, npairs):
-    d_ = Driver('C11', 'best-model', bound='%d random data spectra 1-3-D (folded and unfolded, zeros included), 6 competitor models each '
+    d_ = _det(Driver('C11', 'best-model', bound='%d random data spectra 1-3-D (folded and unfolded, zeros included), 6 competitor models each '
                 'with the data\'s mask (random, near-proportional 1+-1e-3 noise, proportional with one entry moved): '
                 'll_multinom(c*data,data) >= ll_multinom(model,data) - 2e-13*scale, and equals the mpmath value of '
-                'sum(-d+d*log d-loggamma(d+1))' % npairs)
+                'sum(-d+d*log d-loggamma(d+1))' % npairs))
     import numpy as np
     import dadi
     from dadi import Inference as I
@@ -421,10 +430,10 @@ def drv_best(tier, npairs):
 
 @_silenced
 def drv_resid(tier, npairs):
-    d_ = Driver('C11', 'residuals', bound='%d random pairs 1-3-D, folded data in 1/4 of them, independent masks, data zeros, mask argument in '
+    d_ = _det(Driver('C11', 'residuals', bound='%d random pairs 1-3-D, folded data in 1/4 of them, independent masks, data zeros, mask argument in '
                 '{None, 0, 1e-2, 0.5, 5}: linear (m-d)/sqrt(m) and Anscombe -1.5*((d^(2/3)-d^(-1/3)/9)-(m^(2/3)-m^(-1/3)/9))/m^(1/6) against '
                 'mpmath, rel tol 1e-12 of the term scale; masks = joint mask (plus d==0 for Anscombe) plus (m<=mask & d<=mask); sign>0 iff '
-                'model>data (linear)' % npairs)
+                'model>data (linear)' % npairs))
     import numpy as np
     import dadi
     from dadi import Inference as I
